@@ -18,7 +18,8 @@ func (p *parser) parseFile() {
 
 	// X64 强制采用 intel 语法
 	if p.cpu == abi.X64Unix || p.cpu == abi.X64Windows {
-		for {
+	x64Header:
+		for p.prog.IntelSyntax == nil {
 			if p.err != nil {
 				return
 			}
@@ -38,6 +39,11 @@ func (p *parser) parseFile() {
 				}
 				p.acceptToken(token.GAS_X64_INTEL_SYNTAX)
 				p.acceptToken(token.GAS_X64_NOPREFIX)
+				p.consumeSemicolonList()
+
+			default:
+				// anything else ends the header: the directive is missing (reported below)
+				break x64Header
 			}
 		}
 		if p.prog.IntelSyntax == nil {
